@@ -4,6 +4,7 @@ import Driver.Global
 import Driver.Histogram
 import Driver.MetricsRs
 import Driver.Units
+import Driver.Timers
 /-!
 `driver <engine>`: reads one request per line on stdin, prints one reply per line.
 Every engine is a pure function `String → String` of the request line (stateful models receive the
@@ -16,7 +17,8 @@ def engines : List (String × (String → String)) := [
   ("global", Driver.Global.handle),
   ("histogram", Driver.Histogram.handle),
   ("metricsrs", Driver.MetricsRs.handle),
-  ("units", Driver.Units.handle)
+  ("units", Driver.Units.handle),
+  ("timers", Driver.Timers.handle)
 ]
 
 partial def loop (h : IO.FS.Stream) (out : IO.FS.Stream) (f : String → String) : IO Unit := do
